@@ -363,6 +363,11 @@ class ConfEval:
                 return (a == b) ^ neg
             if isinstance(a, Sym) and isinstance(b, Sym):
                 return (a == b) ^ neg
+            # the undecided fact is "a equals b"; `!=` reads its negation (so a rule can tell the two apart)
+            if isinstance(a, Sym) and isinstance(b, conc):
+                return self.choice(node, f"eq:{a!r}:{b!r}") ^ neg
+            if isinstance(b, Sym) and isinstance(a, conc):
+                return self.choice(node, f"eq:{b!r}:{a!r}") ^ neg
             return self.choice(node, "eq") ^ neg
         return self.choice(node, "cmp")
 
